@@ -45,14 +45,20 @@ Theorem moon_node_closed jde :
   ang (pos360 (red360 (node_moon (tc jde)))).
 Proof. pyrunv. try reflexivity. Qed.
 
-(* the node polynomial written inside nutation_longitude / nutation_obliquity (Coordinates.py) *)
+(* the node polynomial written inside nutation_longitude / nutation_obliquity (Coordinates.py:398,
+   :473), with the literals as the translator renders them.  NOT tied to f_nutation_longitude by a
+   proof in this file: it is the fifth fundamental argument (polyO) of the structure theorem of the
+   nutation series (C08_nut_main.v), syntactically the same term. *)
 Definition node_nutation (t : R) : R :=
+  Rlit 12504452 (-5) + t * (Rlit (-1934136261) (-6) + t * (Rlit 20708 (-7) + t / Rlit 4500000 (-1))).
+Lemma node_nutation_eq t : node_nutation t =
   125.04452 + t * (-1934.136261 + t * (0.0020708 + t / 450000)).
+Proof. unfold node_nutation. Rlit_norm. unfold Q2R; cbn [QArith_base.Qnum QArith_base.Qden]. field. Qed.
 
 (* both polynomials agree to 0.0024 degree within 20 centuries of J2000.0: the main nutation terms
    17.20 sin / 9.20 cos of the two nodes differ by less than 0.001 arcsec *)
 Theorem node_agreement t : -20 <= t <= 20 -> Rabs (node_nutation t - node_moon t) <= 24 / 10000.
 Proof.
-  intros H. rewrite node_moon_eq. unfold node_nutation.
+  intros H. rewrite node_moon_eq, node_nutation_eq.
   interval with (i_bisect t, i_taylor t, i_degree 6).
 Qed.
